@@ -31,8 +31,6 @@ ASSUMPTIONS = [
     'expression evaluation is shared between the reference statement interpreter and the implementation (C08 is about statements; '
     'operators and the library are C03/C15): the reference interpreter calls evaluate_expression for expressions',
     'numbers in generated programs are exactly representable, so the rational arithmetic of the Lean host equals float arithmetic',
-    'call expressions always carry an "args" member (the parser always emits one); a hand-built call without it passes None to the '
-    'callee - reported separately as a calling-convention finding candidate, outside the C08 clauses',
     'immutability of the Python model dicts and run-to-run determinism are properties of the implementation only (in Lean a model is '
     'an immutable value and execute is a function): checked by deep-copy/compare and by executing every model twice',
     'negative zero is not modelled by the rational host: "-0" in log lines is compared as "0" (number text is C12/C13); values '
@@ -283,8 +281,9 @@ def run_reference(model, globals_, max_statements):
     return out
 
 
-def impl_oracles(model, globals_, max_statements):
-    """The property's own oracles on the implementation. -> (impl outcome, [(oracle, expected, actual)])"""
+def impl_oracles(model, globals_, max_statements, json_copy=False):
+    """The property's own oracles on the implementation. -> (impl outcome, [(oracle, expected, actual)])
+    json_copy: the model shares statement objects between lists; it must behave exactly like its JSON deep copy."""
     before = json.dumps(model, sort_keys=True)          # exact structural snapshot (ints and floats print differently)
     first = run_impl(model, globals_, max_statements)
     bad = []
@@ -297,6 +296,10 @@ def impl_oracles(model, globals_, max_statements):
         model = json.loads(before)
     if second != first:
         bad.append(('repeatable', first, second))
+    if json_copy:
+        plain = run_impl(json.loads(before), globals_, max_statements)
+        if plain != first:
+            bad.append(('same-as-json-copy', plain, first))
     if 'hostexc' not in first:
         ref = run_reference(model, globals_, max_statements)
         if ref is not None and ref != first:
@@ -311,6 +314,203 @@ def has_includes(statements):
         if 'function' in stmt and has_includes(stmt['function']['statements']):
             return True
     return False
+
+
+# ---------------------------------------------------------------------------------------------------------------------
+# directed families
+#  (A) dup-label: a duplicated label, a second label after the duplicate, a jump to the second label before any jump to the
+#      duplicated one (an index of labels that is filled incrementally / last-wins goes wrong only on such lists)
+#  (B) shared-objects: hand-built models in which THE SAME jump dict object sits in two statement lists (the global list and a
+#      function body, or two function bodies) with the label at different positions, or missing, in the two lists
+# ---------------------------------------------------------------------------------------------------------------------
+
+DUP_ATOMS = ['jA', 'jB', 'lA', 'lB', 'ret', 'inc', 'jiA']
+
+
+def dup_shape(names):
+    at_a = [i for i, n in enumerate(names) if n == 'lA']
+    if len(at_a) < 2 or not any(n == 'lB' and i > at_a[1] for i, n in enumerate(names)):
+        return False
+    to_b = [i for i, n in enumerate(names) if n == 'jB']
+    to_a = [i for i, n in enumerate(names) if n in ('jA', 'jiA')]
+    return bool(to_b) and bool(to_a) and to_b[0] < to_a[0]
+
+
+def dup_statement(name, pos):
+    if name == 'ret':
+        return {'return': {'expr': {'number': pos}}}             # which return ran is visible in the result
+    return {'jA': ATOMS['j1'], 'jB': ATOMS['j2'], 'lA': ATOMS['l1'], 'lB': ATOMS['l2'], 'inc': ATOMS['inc'], 'jiA': ATOMS['ji1']}[name]
+
+
+def dup_model(names, in_function):
+    stmts = [dup_statement(n, i) for i, n in enumerate(names)]
+    if in_function:
+        return {'statements': [{'function': {'name': 'f', 'statements': stmts}}, {'return': {'expr': e_call('f')}}]}
+    return {'statements': stmts}
+
+
+def dup_cases(ctx):
+    """quick: every shaped list of length 5..7 at top level and of length 5..6 inside a function body;
+    thorough: length 5..7 in both scopes + a sample of length 8"""
+    rng = ctx.rng('dup-label')
+    for k in (5, 6, 7):
+        for names in itertools.product(DUP_ATOMS, repeat=k):
+            if dup_shape(names):
+                yield names, False
+                if k < 7 or not ctx.quick:
+                    yield names, True
+    if not ctx.quick:
+        for _ in range(40000):
+            names = tuple(rng.choice(DUP_ATOMS) for _ in range(8))
+            if dup_shape(names):
+                yield names, rng.random() < 0.5
+
+
+SHARED_TEMPLATES = {
+    # J = the shared jump object; logs carry the list name and the position
+    'after': ['J', 'log', 'L', 'log'],
+    'next': ['J', 'L', 'log'],
+    'missing': ['log', 'J', 'log'],
+    'loop': ['L', 'inc', 'J', 'log'],
+    'end': ['J', 'log', 'log', 'L'],
+    'dup': ['L', 'log', 'J', 'L', 'log'],
+}
+
+
+def shared_list(template, jump, tag):
+    out = []
+    for pos, item in enumerate(SHARED_TEMPLATES[template]):
+        if item == 'J':
+            out.append(jump)                                      # the SAME object in every list
+        elif item == 'L':
+            out.append({'label': 'L1'})
+        elif item == 'inc':
+            out.append({'expr': {'name': 'x', 'expr': X_PLUS_1}})
+        else:
+            out.append(s_log(f'{tag}{pos}'))
+    return out
+
+
+def build_shared(scope, t_one, t_two, conditional, order):
+    """scope 'main-f': lists = global list and body of f; 'f-g': bodies of f and g.  order: which list runs first."""
+    jump = {'jump': {'label': 'L1', 'expr': X_LT_2}} if conditional else {'jump': {'label': 'L1'}}
+    one, two = shared_list(t_one, jump, 'p'), shared_list(t_two, jump, 'q')
+    call_f, call_g = {'expr': {'expr': e_call('f')}}, {'expr': {'expr': e_call('g')}}
+    if scope == 'main-f':
+        fdef = {'function': {'name': 'f', 'statements': two}}
+        if order == 'first':            # the body runs before the global list reaches the shared jump
+            return {'statements': [fdef, call_f] + one + [call_f]}
+        return {'statements': [fdef] + one + [call_f]}
+    fdef = {'function': {'name': 'f', 'statements': one}}
+    gdef = {'function': {'name': 'g', 'statements': two}}
+    calls = [call_f, call_g, call_f] if order == 'first' else [call_g, call_f, call_g]
+    return {'statements': [fdef, gdef] + calls}
+
+
+def shared_cases():
+    for scope in ('main-f', 'f-g'):
+        for t_one in SHARED_TEMPLATES:
+            for t_two in SHARED_TEMPLATES:
+                for conditional in (False, True):
+                    for order in ('first', 'second'):
+                        yield [scope, t_one, t_two, conditional, order]
+
+
+# (C) argless calls: the schema makes 'args' optional on a call expression; a call without the member is a call with no arguments
+def _argless(expr):
+    """deep copy of a model in which every call with an empty argument list has its 'args' member removed"""
+    if isinstance(expr, list):
+        return [_argless(e) for e in expr]
+    if isinstance(expr, dict):
+        out = {k: _argless(v) for k, v in expr.items()}
+        if set(out) >= {'name', 'args'} and out['args'] == [] and 'statements' not in out:
+            del out['args']
+        return out
+    return expr
+
+
+def argless_cases():
+    """(case, model with args: [] everywhere) - script functions with 0 / 1 / variadic parameters called with no arguments, from
+    the top level and from a function, and library functions called with no arguments"""
+    log_a = {'expr': {'expr': e_call('systemLog', {'variable': 'a'})}}
+    fdefs = {
+        'f()': {'function': {'name': 'f', 'statements': [s_log('in f'), {'return': {'expr': {'number': 3}}}]}},
+        'f(a)': {'function': {'name': 'f', 'args': ['a'], 'statements': [log_a, s_log('in f'), {'return': {'expr': {'number': 3}}}]}},
+        'f(a...)': {'function': {'name': 'f', 'args': ['a'], 'lastArgArray': True,
+                                 'statements': [{'expr': {'expr': e_call('systemLog', e_call('arrayLength', {'variable': 'a'}))}},
+                                                {'return': {'expr': {'variable': 'a'}}}]}},
+        'f(a,b)': {'function': {'name': 'f', 'args': ['a', 'b'], 'statements': [log_a, {'return': {'expr': {'variable': 'b'}}}]}},
+    }
+    g_def = {'function': {'name': 'g', 'statements': [{'return': {'expr': e_call('f')}}]}}
+    for fname, fdef in fdefs.items():
+        yield ['argless', fname, 'top'], {'statements': [fdef, {'expr': {'name': 'x', 'expr': e_call('f')}}, s_log('after'), {'return': {'expr': X}}]}
+        yield ['argless', fname, 'nested'], {'statements': [fdef, g_def, {'expr': {'name': 'x', 'expr': e_call('g')}}, {'return': {'expr': X}}]}
+        yield ['argless', fname, 'jumpif'], {'statements': [fdef, {'jump': {'label': 'L1', 'expr': e_call('f')}}, s_log('not taken'),
+                                                            {'label': 'L1'}, {'return': {'expr': X}}]}
+    for lib in ('arrayNew', 'objectNew', 'systemLog', 'arrayLength', 'systemType', 'systemBoolean', 'arrayPop', 'systemGlobalGet'):
+        yield ['argless', lib, 'lib'], {'statements': [{'expr': {'name': 'x', 'expr': e_call(lib)}},
+                                                       {'expr': {'expr': e_call('systemLog', e_call('systemType', X))}},
+                                                       {'return': {'expr': X}}]}
+
+
+def stream_directed(ctx, driver=True):
+    st = ctx.stream('exec-directed',
+                    '(A) dup-label: statement lists over {jump L1, jump L2, label L1, label L2, return <position>, x=x+1, jumpif (x<2) L1} '
+                    'with a duplicated L1, an L2 after the second L1 and a jump to L2 before any jump to L1 - all of length 5..7 (top '
+                    'level; inside a function body: length 5..6 quick, 5..7 thorough) + 40000 sampled of length 8 (thorough); '
+                    '(B) shared-objects: 288 hand-built models in which the same jump dict OBJECT sits in the global list and a function '
+                    'body, or in two function bodies, with the label after / next / missing / before (loop) / at the end / duplicated; '
+                    'same comparison and oracles, (B) additionally: identical to its JSON deep copy; (C) argless: 20 hand-built models '
+                    'whose call expressions omit the optional args member (script functions with 0/1/2/variadic parameters called from '
+                    'the top level, a function and a jump condition; 8 library functions), additionally: same outcome as with args: []; '
+                    'non-trivial = all')
+    validate = fw.impl()['model'].validate_script
+    saved_driver = ctx.driver
+    if not driver:
+        ctx.driver = None
+    try:
+        chunk = []
+        for names, in_function in dup_cases(ctx):
+            chunk.append((('f: ' if in_function else '') + ' '.join(names), dup_model(names, in_function), {'x': 0},
+                          ['dup-label', 'in-function' if in_function else 'top-level', 'len%d' % len(names)]))
+            if len(chunk) >= 20000:
+                run_chunk(ctx, 'exec-directed', st, chunk, MAX_EXH, 400, lambda m, o: True)
+                chunk = []
+        if chunk:
+            run_chunk(ctx, 'exec-directed', st, chunk, MAX_EXH, 400, lambda m, o: True)
+        # (B): the driver sees the JSON text (no sharing); the implementation runs the object graph with sharing
+        reqs, models = [], []
+        for params in shared_cases():
+            model = build_shared(*params)
+            validate(model)
+            models.append((params, model))
+            reqs.append({'op': 'exec', 'script': progen.canon_script(model), 'globals': progen.wire_globals({'x': 0}), 'max': MAX_EXH, 'fuel': 400})
+        resps = ctx.driver.batch(reqs) if ctx.driver is not None else [None] * len(reqs)
+        for (params, model), resp in zip(models, resps):
+            impl, bad = impl_oracles(model, {'x': 0}, MAX_EXH, json_copy=True)
+            st.case(['shared'] + params, nontrivial=True, tags=['shared-objects', params[0]] + outcome_tags(impl))
+            if resp is not None:
+                ctx.compare('exec-directed', ['shared'] + params, impl, progen.canon_model_out(resp))
+            for name, expected, actual in bad:
+                ctx.witness(name, {'shared': params, 'model': json.loads(json.dumps(model)), 'globals': {'x': 0}, 'max': MAX_EXH},
+                            expected, actual)
+        # (C): the model without the optional 'args' members against the driver, and against the same model with args: []
+        chunk = []
+        with_args = {}
+        for case, model in argless_cases():
+            bare = _argless(model)
+            assert bare != model
+            chunk.append((case, bare, {'x': 0}, ['argless', case[2]]))
+            with_args[json.dumps(case)] = model
+        run_chunk(ctx, 'exec-directed', st, chunk, MAX_EXH, 400, lambda m, o: True)
+        for case, bare, g, _ in chunk:
+            full = run_impl(with_args[json.dumps(case)], g, MAX_EXH)
+            got = run_impl(bare, g, MAX_EXH)
+            if full != got:
+                ctx.witness('call-without-args-is-call-with-no-arguments', {'model': bare, 'globals': g, 'max': MAX_EXH, 'history': []},
+                            full, got)
+    finally:
+        ctx.driver = saved_driver
 
 
 # ---------------------------------------------------------------------------------------------------------------------
@@ -510,8 +710,9 @@ def stream_random(ctx, n, driver=True, name='exec-random'):
 
 
 def streams(ctx):
+    stream_directed(ctx)
     stream_exhaustive(ctx)
-    stream_random(ctx, ctx.scale(600, 25000))
+    stream_random(ctx, ctx.scale(600, 20000))
 
 
 def disagreement_known(d, known):
@@ -523,7 +724,9 @@ def search(ctx):
     saved = ctx.quick
     try:
         ctx.quick = True
-        stream_exhaustive(ctx, driver=False)
+        stream_directed(ctx, driver=False)
+        if not ctx.witnesses:
+            stream_exhaustive(ctx, driver=False)
         if not ctx.witnesses:
             stream_random(ctx, 6000 if saved else 60000, driver=False, name='search-random')
     finally:
@@ -532,6 +735,20 @@ def search(ctx):
 
 def replay(witness):
     inp = witness['input']
+    if 'shared' in inp:                         # rebuild the object graph with the shared jump object (JSON cannot hold it)
+        _, bad = impl_oracles(build_shared(*inp['shared']), inp['globals'], inp['max'], json_copy=True)
+        return any(name == witness['oracle'] for name, _, _ in bad)
+    if witness['oracle'] == 'call-without-args-is-call-with-no-arguments':
+        def with_args(e):
+            if isinstance(e, list):
+                return [with_args(x) for x in e]
+            if isinstance(e, dict):
+                out = {k: with_args(v) for k, v in e.items()}
+                if len(e) == 1 and 'function' in e and 'statements' not in e['function']:
+                    out['function'].setdefault('args', [])
+                return out
+            return e
+        return run_impl(with_args(inp['model']), inp['globals'], inp['max']) != run_impl(inp['model'], inp['globals'], inp['max'])
     for earlier in inp.get('history', []):
         run_impl(earlier, inp['globals'], inp['max'])
     _, bad = impl_oracles(inp['model'], inp['globals'], inp['max'])
